@@ -26,6 +26,11 @@ reg("C02", ["E1"], E1T,
     "special soundness goals (old state opened, nonce, channel id, close tag, lock linkage, balance update by exactly the amount, range link, pay token is a PS signature on the extracted old state), "
     "integer obligation on the verifier's own digit weights, and binding of every non-response atom / statement component.",
     TB + "; digit signatures exist only for 0..127 and PS unforgeability are assumptions", "DESIGN.md section 4, C02")
+reg("C05", ["E1"], E1T,
+    "Bounded model checking of Unrevoked::complete_payment on a fully symbolic candidate revocation pair and blinding factor: Ok <=> the Pedersen opening relation on the commitment taken from the accepted pay proof, "
+    "the token is a blind signature on the proof's state commitment, a refused attempt hands back a pending payment that the honest lock message completes for every draw; "
+    "RevocationPair decode/generation: all paths, success <=> lock = canonical SHA3(secret||index) with the transcript checked item by item.",
+    TB, "DESIGN.md section 4, C05")
 reg("C07", ["E1"], E1T,
     "Bounded model checking of Signature::verify on symbolic (key, message, signature) incl. decode: result <=> (sigma1 != 1 and pairing relation) on every path; "
     "every signature derived by chains of sign / randomize / blind_and_randomize+unblind / blind-sign+unblind (length <= 3) is shown to verify on every feasible path when re-randomisers are non-zero and never when the last one is zero; "
@@ -52,11 +57,25 @@ reg("C12", ["E1"], E1T,
     "Bounded model checking: the challenge transcripts computed by the real ChallengeInput impls and inside initialize / allow_payment are recorded by the ideal-hash stand-in; "
     "for every wire atom of every proof type, key, parameter set and statement component the query 'equal digest and different atom' must be unsat (response scalars: documented sat twin); builder and proof transcripts must be identical.",
     TB, "DESIGN.md section 4, C12")
+reg("C13", ["E1"], E1T,
+    "Bounded model checking of RangeConstraint::verify_range_constraint on a fully symbolic constraint (accept-set against 9 digit-proof relations + link equation, d failing checks), "
+    "the verifier's own link weights extracted from its path condition and fed to an integer query (digits in [0,128) => value in [0,2^63), maximum exactly 2^63-1), mismatch of link/challenge/key refuted, "
+    "RangeConstraintParameters::validate exact for single failing signatures; prover sign test on lattice values (the all-i64 prover claim is planned as a Kani harness).",
+    TB + "; digit signatures exist only for 0..127 (signing key discarded) is an assumption", "DESIGN.md section 4, C13")
+reg("C18", ["E1"], E1T,
+    "Bounded model checking: Nonce::new over arbitrary draws incl. the crafted close-tag stream (retry paths), Nonce decode exact, the state's nonce slot != close tag, "
+    "a pay token re-labelled as closing signature (merchant close check) and a closing signature re-labelled as pay token (through a restored customer state and allow_payment) are rejected on every feasible path; "
+    "ChannelId::new: equal digest forces equality of each of the five inputs (symbolic randomness / key atoms, string lattice).",
+    TB, "DESIGN.md section 4, C18")
+reg("C19", ["E1"], E1T,
+    "Bounded model checking of KeyPair::new, PedersenParameters::new, RangeConstraintParameters::new, merchant::Config::new with every draw free (zero / identity allowed, <= d degenerate draws then retry): "
+    "on every returning path all secret scalars are non-zero, all public elements non-identity, G1/G2 halves share logarithms, the library's own decode-time validation and validate() are forced to accept, and signatures verify; plus crafted zero-window streams.",
+    TB, "DESIGN.md section 4, C19")
 reg("C17", ["E2"], E2T,
     "Bounded model checking (Kani/CBMC) of the balance and amount arithmetic over all 64-bit inputs, including every amount decodable from the wire (i64::MIN): "
     "no panic/overflow, success exactly when the i128 reference result is in range, documented error variants, and scalar encoding = field embedding / additive homomorphism (canonical-integer Scalar stand-in).",
     "trusted base: Kani's translation of MIR, CBMC+cadical; contract assumed of bls12_381::Scalar: from(u64) is the ring embedding and +,-,neg are the field operations", "DESIGN.md section 4, C17")
-reg("C15", ["E2"], E2T,
+reg("C15x", ["E2"], E2T,
     "Kani part: balances decoded from the wire are <= 2^63-1; amounts and balances round-trip exactly (E1 part to follow).",
     "trusted base: Kani's translation of MIR, CBMC+cadical", "DESIGN.md section 4, C15")
 
